@@ -186,4 +186,8 @@ PROOFS = [
 ]
 # thorough tier: write/parse round trip of the real code for every directive and several delta-seconds, every Connection and Encoding value
 NATIVE_SWEEPS = [{'name': 'header_roundtrip', 'driver': 'hdr_rt', 'props': ['C16'], 'what': 'CacheControl/Connection/ContentEncoding write + parseRaw',
-                  'argvs': [['cachecontrol', d, x] for d in range(12) for x in (0, 1, 7, 9, 10, 3600, 2147483647)] + [['connection', c] for c in range(3)] + [['encoding', e] for e in range(6)]}]
+                  'argvs': [['cachecontrol', d, x] for d in range(12) for x in (0, 1, 7, 9, 10, 3600, 2147483647)] + [['connection', c] for c in range(3)] + [['encoding', e] for e in range(6)]
+                           # Date: any second -- year boundaries (ISO week years differ there), leap days, epoch, far future
+                           + [['date', t] for t in (0, 1, 59, 86399, 86400, 951782400, 1078012800, 1230767999, 1230768000, 1262304000, 1293839999, 1293840000, 1325376000, 1356998400,
+                                                    1388534399, 1388534400, 1419984000, 1420070400, 1445412480, 1451606400, 1483228799, 1483228800, 1514764800, 1546300800, 1577836799, 1577836800, 1582934400,
+                                                    1609459199, 1609459200, 1640995200, 1672531199, 1672531200, 1704067200, 1735689600, 1767225599, 1767225600, 2147483647, 4102444800)]}]
